@@ -388,7 +388,7 @@ pub fn owned(prop: &str, v: &Violation) -> bool {
         "C10" => strict && (matches!(v.class, CapPost | LenGtCap) || (v.op == Op::Cap && content)),
         "C11" => v.class == HeapUseOnStack || (v.on_stack && (content || (strict && ledger) || v.class == RelaxedInvalid || v.class == LenGtCap)),
         "C12" => matches!(v.class, Misaligned | Views) || (v.op == Op::Views && content),
-        "C13" => strict && content && matches!(v.op, Op::Get | Op::Mutate | Op::Swap),
+        "C13" => strict && content && (matches!(v.op, Op::Get | Op::Mutate | Op::Swap) || (v.op == Op::Take && v.via == VIA_ERASED && matches!(v.sink, SINK_MUTATE | SINK_SWAP | SINK_INSPECT))),
         "C14" => strict && ((v.op == Op::Iter && content) || (matches!(v.op, Op::Drain | Op::Splice) && v.class == EvMismatch && !v.panic_involved)),
         "C17" => strict && v.op == Op::RawTrip,
         "C18" => matches!(v.class, Alloc | HeapLeak | HeapBlock) || (crash && v.detail.contains("allocator monitor")),
